@@ -57,10 +57,12 @@ type Transport struct {
 	EOFAtEnd    bool     // after the script: io.EOF (peer closed) instead of blocking
 	DataWithEOF bool     // deliver the last chunk together with io.EOF
 	ReadErr     error    // error returned after the script instead of EOF (when non-nil)
+	FailReadErr error    // error of the injected FailReadAt failure (default ErrInjected)
 	Reads       int
 	Consumed    int // inbound bytes handed out so far
 	// fault injection (1-based call counters; 0 = never)
 	FailWriteAt     int // k-th Write/Writev call fails
+	FailWritesFrom  int // every Write/Writev call from this one on fails
 	FailFlushAt     int
 	FailReadAt      int
 	WriteErr        error
@@ -168,8 +170,8 @@ func (m *Transport) Read(p []byte) (int, error) {
 	}
 	if m.FailReadAt > 0 && m.Reads == m.FailReadAt {
 		m.ev('R', nil, 0, true)
-		if m.ReadErr != nil {
-			return 0, m.ReadErr
+		if m.FailReadErr != nil {
+			return 0, m.FailReadErr
 		}
 		return 0, ErrInjected
 	}
@@ -200,7 +202,7 @@ func (m *Transport) writeFault() error {
 	if m.IsClosed {
 		return ErrClosed("write")
 	}
-	if m.FailWriteAt > 0 && m.writes == m.FailWriteAt {
+	if (m.FailWriteAt > 0 && m.writes == m.FailWriteAt) || (m.FailWritesFrom > 0 && m.writes >= m.FailWritesFrom) {
 		if m.WriteErr != nil {
 			return m.WriteErr
 		}
